@@ -10,6 +10,7 @@ import (
 	"time"
 
 	"verif/harness/adjdrv"
+	"verif/harness/alifedrv"
 	"verif/harness/builddrv"
 	"verif/harness/convdrv"
 	"verif/harness/injdrv"
@@ -67,6 +68,15 @@ func main() {
 		fs.Int64("seed", 1, "unused")
 		fs.Parse(args)
 		if err := ocidrv.Run(*in, *out, *reps); err != nil {
+			fail(err)
+		}
+	case "adaptlife":
+		fs := flag.NewFlagSet(mod, flag.ExitOnError)
+		in := fs.String("in", "", "schedules")
+		out := fs.String("out", "", "trace file")
+		par := fs.Int("par", 8, "scenarios in flight")
+		fs.Parse(args)
+		if err := alifedrv.Run(*in, *out, *par); err != nil {
 			fail(err)
 		}
 	case "build":
